@@ -1,6 +1,8 @@
 package scanner
 
 import (
+	"fmt"
+
 	"github.com/jsightapi/jsight-schema-core/bytes"
 	"github.com/jsightapi/jsight-schema-core/fs"
 	"github.com/jsightapi/jsight-schema-core/kit"
@@ -101,9 +103,17 @@ func stateEnumBodyEnded(s *Scanner, c byte) *jerr.JApiError {
 	}
 }
 
-func (s *Scanner) readEnumWithJsc() (uint, *jerr.JApiError) {
+func (s *Scanner) readEnumWithJsc() (l uint, je *jerr.JApiError) {
 	fc := s.file.Content()
 	file := fs.NewFile("", fc.Sub(s.curIndex, fc.LenIndex()))
+
+	// jsight-schema-core may panic on a truncated body (e.g. a block comment cut off by the
+	// end of the file): that is an error in the document, not a reason to crash.
+	defer func() {
+		if r := recover(); r != nil {
+			l, je = 0, s.japiErrorBasic(fmt.Sprintf("%s: %v", jerr.RuntimeFailure, r))
+		}
+	}()
 
 	l, err := enum.FromFile(file).Len()
 	if err != nil {
